@@ -130,16 +130,24 @@ def jwt_forgeries(rs, tok, clients):
             if pay.get("token_class") not in (None, cls):
                 out.append(("resign-HS256-client-secret-iss-client-class", sign(dict(pay, iss=c, token_class=cls), key, "HS256")))
     # a key a client REGISTERED (registration with jwks imports it into the provider's key jar under the client id)
-    ck = getattr(rs, "_c04_client_key", None)
-    if ck is None:
-        ck = rs._c04_client_key = new_rsa_key(kid="c04-client-key")
-        rs.server.keyjar.import_jwks({"keys": [ck.serialize(private=False)]}, clients[0])
-    out.append(("resign-RS256-registered-client-key-iss-client", sign(dict(pay, iss=clients[0]), ck, "RS256")))
-    out.append(("resign-RS256-registered-client-key-iss-kept", sign(pay, ck, "RS256")))
-    for cls in ("authorization_code", "access_token", "refresh_token"):
-        if pay.get("token_class") not in (None, cls):
-            out.append(("resign-RS256-registered-client-key-iss-client-class-exp",
-                        sign(dict(pay, iss=clients[0], token_class=cls, exp=pay.get("exp", 0) + 10 ** 7), ck, "RS256")))
+    cks = getattr(rs, "_c04_client_keys", None)
+    if cks is None:
+        from cryptojwt.jwk.ec import new_ec_key
+        cks = rs._c04_client_keys = {"RS256": new_rsa_key(kid="c04-client-rsa"), "ES256": new_ec_key("P-256", kid="c04-client-ec")}
+        rs.server.keyjar.import_jwks({"keys": [k.serialize(private=False) for k in cks.values()]}, clients[0])
+    try:
+        own_alg = json.loads(base64.urlsafe_b64decode(h + "=" * (-len(h) % 4))).get("alg")
+    except Exception:
+        own_alg = None
+    for alg, ck in cks.items():
+        tag = "same-alg" if alg == own_alg else "other-alg"
+        out.append(("resign-registered-client-key-%s-iss-client" % tag, sign(dict(pay, iss=clients[0]), ck, alg)))
+        out.append(("resign-registered-client-key-%s-iss-kept" % tag, sign(pay, ck, alg)))
+        out.append(("resign-registered-client-key-%s-iss-client-exp" % tag, sign(dict(pay, iss=clients[0], exp=pay.get("exp", 0) + 10 ** 7), ck, alg)))
+        for cls in ("authorization_code", "access_token", "refresh_token"):
+            if pay.get("token_class") not in (None, cls):
+                out.append(("resign-registered-client-key-%s-iss-client-class" % tag,
+                            sign(dict(pay, iss=clients[0], token_class=cls), ck, alg)))
     fk = new_rsa_key()
     out.append(("resign-RS256-fresh-key", sign(pay, fk, "RS256")))
     out.append(("resign-RS256-fresh-key-iss-client", sign(dict(pay, iss=clients[0]), fk, "RS256")))
